@@ -738,7 +738,7 @@ fn total_len(items: &[Item]) -> usize {
 const W_TYS: &[Ty] = &[
     Ty::U64, Ty::Str, Ty::String, Ty::Bytes, Ty::Tuple3, Ty::Borrowed, Ty::Tree, Ty::VecU32, Ty::OptStr, Ty::MapRec, Ty::Gappy, Ty::Shape, Ty::Unit,
     Ty::I32, Ty::F64, Ty::Tokens, Ty::EncOps, Ty::Empty, Ty::BTreeMapU32Str, Ty::Duration, Ty::VecString, Ty::TaggedRec, Ty::Point, Ty::Color,
-    Ty::SelfDesc, Ty::Embedded, Ty::Ticket, Ty::Ticket,
+    Ty::SelfDesc, Ty::Embedded, Ty::Ticket, Ty::Ticket, Ty::Nested,
 ];
 
 fn generate_single(r: &mut Rng, tier: Tier) -> C16 {
